@@ -8,11 +8,11 @@ LEVEL = 'exploration'
 NEEDS = ('threads',)
 QUICK = dict(runs=36000, wall=85)
 THOROUGH = dict(runs=600000, wall=900)
-RULE = ('scenario = (batch_size 1..5, batch_wait_time in {0,10ms,1s}, end marker None / custom object / string / falsy values (0, '', False, ()), n<=14 items with arrival gaps '
+RULE = ('scenario = (batch_size 1..5, batch_wait_time in {0,10ms,1s}, instream queue.Queue (unbounded, maxsize 1 or 2) or queue.SimpleQueue, end marker None / custom object / string / falsy values (0, '', False, ()), n<=14 items with arrival gaps '
         'drawn from {0, w/2, w, 1.01w, 10w, 1ms}, optional late end marker) x seeded schedule of producer thread vs batcher; '
         'virtual clock exact or racy')
 NONTRIVIAL_RULE = 'at least one item and the producer and the batcher were runnable concurrently at some step'
-REAL = ['mpservice.streamer.EagerBatcher', 'queue.Queue', 'threading.Condition']
+REAL = ['mpservice.streamer.EagerBatcher', 'queue.Queue (also bounded)', 'queue.SimpleQueue (pure-Python implementation over the simulated locks)', 'threading.Condition']
 STUB = ['thread scheduler', 'clock (virtual)']
 ASSUMPTIONS = ['timing equalities are evaluated only in exact-time runs without line pre-emption; ordering rules in all runs']
 
@@ -44,7 +44,8 @@ def gen(rng, tier):
     for _ in range(n + 1):  # last gap precedes the end marker
         gaps.append(rng.choice([0, 0, 0, base / 2, base, base * 1.01, base * 10, 0.001, base * 0.99]))
     sc = {'b': b, 'w': w, 'n': n, 'gaps': gaps, 'marker': rng.choice(['none', 'none', 'none', 'custom', 'str', 'zero', 'empty_str', 'false', 'empty_tuple']),
-          'default_wait': rng.random() < 0.05, 'consumer_delay': rng.choice([0, 0, 0, 0.005, 0.5])}
+          'default_wait': rng.random() < 0.05, 'consumer_delay': rng.choice([0, 0, 0, 0.005, 0.5]),
+          'qkind': rng.choice(['queue', 'queue', 'simple', 'bounded1', 'bounded2'])}
     if sc['marker'] != 'none' and n and rng.random() < 0.5:
         sc['none_at'] = sorted(set(rng.randrange(n) for _ in range(rng.choice([1, 1, 2]))))
     return {'scenario': sc, 'sim': swarm(rng, racy=0.25, line=0.2, max_time=400.0)}
@@ -62,18 +63,25 @@ def shrink(sc):
         yield dict(sc, consumer_delay=0)
     if sc['marker'] != 'none':
         yield dict(sc, marker='none')
+    if sc.get('qkind', 'queue') != 'queue':
+        yield dict(sc, qkind='queue')
 
 
-class RecQueue(queue.Queue):
-    """The instream handed to EagerBatcher: records when each get returned."""
+class RecQueue:
+    """The instream handed to EagerBatcher: a thread queue of the scenario's kind (unbounded / bounded queue.Queue, queue.SimpleQueue);
+    records when each get returned."""
 
-    def __init__(self, sim):
-        super().__init__()
+    def __init__(self, sim, kind='queue'):
+        self.q = {'queue': lambda: queue.Queue(), 'simple': lambda: queue.SimpleQueue(),
+                  'bounded1': lambda: queue.Queue(1), 'bounded2': lambda: queue.Queue(2)}[kind]()
         self.sim = sim
         self.gets = []
 
+    def put(self, z):
+        self.q.put(z)
+
     def get(self, block=True, timeout=None):
-        z = super().get(block, timeout)
+        z = self.q.get(block, timeout)
         self.gets.append((self.sim.now, z))
         return z
 
@@ -84,7 +92,7 @@ def run(sim, sc):
     import time
     b, w, n = sc['b'], sc['w'], sc['n']
     end = mk_marker(sc['marker'])
-    q = RecQueue(sim)
+    q = RecQueue(sim, sc.get('qkind', 'queue'))
     items = [('item', i) for i in range(n)]
     if end is not None:
         # with a custom end marker None is an ordinary data item
@@ -167,7 +175,20 @@ def run(sim, sc):
         sim.count('short_batch')
     if any(len(bt) == b for _, bt in batches):
         sim.count('full_batch')
-    return {'batches': len(batches), 'n': n}
+    return {'batches': len(batches), 'n': n, 'short': bool(n and any(len(bt) < b for _, bt in batches)),
+            'full': any(len(bt) == b for _, bt in batches)}
+
+
+def tags(sim, sc, obs):
+    w = 'default' if sc['default_wait'] else sc['w']
+    t = ['b:%d' % sc['b'], 'w:%s' % w, 'marker:' + sc['marker'], 'queue:' + sc.get('qkind', 'queue')]
+    if sc.get('none_at'):
+        t.append('None-as-data')
+    if obs.get('short'):
+        t.append('short-batch')
+    if obs.get('full'):
+        t.append('full-batch')
+    return t
 
 
 def nontrivial(sim, sc, obs):
